@@ -692,46 +692,45 @@ theorem estStages_pres (r : EstReq) : ∀ st ∈ estStages r, StagePres st := by
 
 /-- the emission loop drops only URR entries marked `removed` — which, by the invariant, are no longer in the
     data plane — so it keeps the invariant -/
+theorem emitOne_sinv (s : Sess) (r : Report) (x : BitVec 32) (b : Bool) (dp : DP) (h : SInv s dp) :
+    SInv (emitOne s r x b).1 dp := by
+  unfold emitOne
+  split
+  · exact h
+  · rename_i info hget
+    simp only []
+    split
+    · rename_i hdrop
+      have hrm : info.removed = true := by
+        simp only [Bool.and_eq_true] at hdrop; exact hdrop.2
+      intro k i hm
+      obtain ⟨h1, h2⟩ := h k i hm
+      refine ⟨?_, ?_⟩
+      · cases k
+        · exact h1
+        · exact h1
+        · exact h1
+        · apply (keys_alDel _ _ _).mpr
+          refine ⟨?_, h1⟩
+          intro hc
+          subst hc
+          have := h2 rfl info hget
+          rw [hrm] at this; cases this
+        · exact h1
+      · intro hk inf hinf
+        subst hk
+        by_cases hi : i = r.urr
+        · subst hi; simp at hinf
+        · rw [alGet_alDel_other _ _ _ hi] at hinf
+          exact h2 rfl inf hinf
+    · exact sinv_urr_update s dp r.urr info { info with seqn := info.seqn + 1 } h hget rfl
+
 theorem emitUsars_sinv (s : Sess) (rs : List Report) (x : BitVec 32) (b : Bool) (dp : DP) (h : SInv s dp) :
     SInv (emitUsars s rs x b).1 dp := by
-  unfold emitUsars
-  generalize hinit : ((s, []) : Sess × List UsarIE) = init
-  have hinv : SInv init.1 dp := by subst hinit; exact h
-  clear hinit
-  induction rs generalizing init with
-  | nil => simpa using hinv
+  induction rs generalizing s with
+  | nil => exact h
   | cons r rs ih =>
-    simp only [List.foldl_cons]
-    apply ih
-    split
-    · exact hinv
-    · rename_i info hget
-      simp only []
-      split
-      · -- the entry is dropped: it was marked removed, so no data-plane entry refers to it
-        rename_i hdrop
-        have hrm : info.removed = true := by
-          simp only [Bool.and_eq_true] at hdrop; exact hdrop.2
-        intro k i hm
-        obtain ⟨h1, h2⟩ := hinv k i hm
-        refine ⟨?_, ?_⟩
-        · cases k
-          · exact h1
-          · exact h1
-          · exact h1
-          · apply (keys_alDel _ _ _).mpr
-            refine ⟨?_, h1⟩
-            intro hc
-            subst hc
-            have := h2 rfl info hget
-            rw [hrm] at this; cases this
-          · exact h1
-        · intro hk inf hinf
-          subst hk
-          by_cases hi : i = r.urr
-          · subst hi; simp at hinf
-          · rw [alGet_alDel_other _ _ _ hi] at hinf
-            exact h2 rfl inf hinf
-      · exact sinv_urr_update init.1 dp r.urr info { info with seqn := info.seqn + 1 } hinv hget rfl
+    unfold emitUsars
+    exact ih _ (emitOne_sinv s r x b dp h)
 
 end UpfVerif.Core
